@@ -3,6 +3,7 @@ package main
 // Generators: payload strings, value descriptors, formats.
 
 import (
+	"math"
 	"strconv"
 	"strings"
 )
@@ -238,7 +239,7 @@ func randMap(r *Rng, depth int, o genOpts) *D {
 			case 6:
 				k = &D{K: "kstruct", N: int64(r.Intn(3)), S: QS([]string{"x", "y"}[r.Intn(2)])}
 			case 7:
-				k = dN("karr", int64(r.Intn(40)))
+				k = dN([]string{"karr", "uintptr", "uint", "ptrInt", "NStr", "NInt"}[r.Intn(6)], int64(r.Intn(40)))
 			default:
 				k = &D{K: "kcomplex", F: float64(r.Intn(3)), N: int64(r.Intn(3))}
 			}
@@ -254,7 +255,13 @@ func randMap(r *Rng, depth int, o genOpts) *D {
 			d := &D{K: "fmap"}
 			used := map[float64]bool{}
 			for i := 0; i < n; i++ {
-				f := []float64{-2.5, -0.0, 0, 1, 3.75, 1e100}[r.Intn(6)]
+				f := []float64{-2.5, -0.0, 0, 1, 3.75, 1e100, math.NaN(), math.Inf(-1)}[r.Intn(8)]
+				if f != f && used[-12345] {
+					continue
+				}
+				if f != f {
+					used[-12345] = true
+				}
 				if used[f] {
 					continue
 				}
